@@ -316,7 +316,9 @@ CTX_BEFORE = ['', '  ', '\t', '{ ', '; ', '=> ', 'return ', 'break ', 'let _ = '
               # the statement inside a macro invoked with braces / brackets (select!, cfg_if!, thread_local!, vec!)
               'tokio::select! { v = rx.recv() => { ', 'm!{ a = ', 'v![k = ', 'thread_local! { static A: u8 = { ', 'cfg_if! { if #[cfg(x)] { ',
               # ordinary literals with comment-like or macro-like text before the statement on its line
-              'let u = "http://h"; ', 'let g = "src/*"; ', 'let r = r#"x // y "z" "#; ', 'let s = "see info!("; ', "let q = ('\\'', b'/', '/'); "]
+              'let u = "http://h"; ', 'let g = "src/*"; ', 'let r = r#"x // y "z" "#; ', 'let s = "see info!("; ', "let q = ('\\'', b'/', '/'); ",
+              # raw byte / C strings: a trailing backslash and an odd number of quotes are plain content there
+              'let p = br"C:\\data\\"; ', 'let h = cr#"type "q to quit: "#; ', 'let e = r"\\"; ']
 CTX_AFTER = [';\n', ')\n', ' }\n', ',\n', ';', '; "done" } }\n', '; "lit" ]\n']   # index 4: end of file without a newline
 
 
